@@ -90,7 +90,8 @@ Definition check_groups (c : groups_case) : list string :=
 Record pwread_case := { pc_text : string; pc_users : res (list user); pc_groups : res (list group) }.
 Definition check_pwread (c : pwread_case) : list string :=
   tag_if (negb (res_eqb (list_eqb user_eqb) (load_users (pc_text c)) (pc_users c))) "mismatch:passwd-reader" ++
-  tag_if (negb (res_eqb (list_eqb group_eqb) (load_groups (pc_text c)) (pc_groups c))) "mismatch:group-reader".
+  tag_if (negb (res_eqb (list_eqb group_eqb) (load_groups (pc_text c)) (pc_groups c))) "mismatch:group-reader" ++
+  entry_count_tags "passwd" (pc_text c) (pc_users c) ++ entry_count_tags "group" (pc_text c) (pc_groups c).
 
 (* file level: etc/passwd or etc/group rewritten in place through WriteFile; the file must hold what Write produces for the
    entries written last (pf_want, itself compared with the model by the users/groups cases), nothing of what was there before *)
